@@ -73,11 +73,11 @@ Qed.
 
 Lemma log2_iter_total : forall m x y b, P36 <= x < 2 * P36 -> 0 <= b <= P36 ->
   Z.abs y + Z.of_nat m * P36 <= 2 ^ 200 ->
-  exists r, log2_iter m x y b = Ok r.
+  exists r, log2_iter m x y b = Ok r /\ Z.abs r <= Z.abs y + Z.of_nat m * P36.
 Proof.
   pose proof P36_pos as HP. pose proof pow2_200_1000 as H2. pose proof P36_lt120 as H120.
   assert (H8 : 8 * 2 ^ 120 <= 2 ^ 1000) by (assert (8 * 2 ^ 120 <= 2 ^ 200) by (vm_compute; discriminate); lia).
-  induction m as [|m IH]; intros x y b Hx Hb Hy; cbn [log2_iter]; [eexists; reflexivity|].
+  induction m as [|m IH]; intros x y b Hx Hb Hy; cbn [log2_iter]; [exists y; split; [reflexivity|lia]|].
   pose proof (iter_step_Z x Hx) as Hs. cbv zeta in Hs.
   unfold bdc_mul. rewrite bd_check_small by lia. cbn [bind]. rewrite two_bigdec_eq.
   rewrite Nat2Z.inj_succ in Hy.
@@ -85,13 +85,13 @@ Proof.
   { rewrite Z.shiftr_div_pow2 by lia. change (2 ^ 1) with 2. split; [apply Z.div_pos; lia|]. apply Z.div_le_upper_bound; lia. }
   destruct (Z.geb_spec (bd_mul x x) (2 * P36)).
   - unfold bdc_add. rewrite bd_check_small by lia. cbn [bind].
-    apply IH; [|assumption|lia].
+    destruct (IH (Z.shiftr (bd_mul x x) 1) (y + b) (Z.shiftr b 1)) as (r & E & A); [|assumption|lia|exists r; split; [exact E|lia]].
     rewrite Z.shiftr_div_pow2 by lia. change (2 ^ 1) with 2.
     split; [apply Z.div_le_lower_bound; lia|apply Z.div_lt_upper_bound; lia].
-  - apply IH; [lia|assumption|lia].
+  - destruct (IH (bd_mul x x) y (Z.shiftr b 1)) as (r & E & A); [lia|assumption|lia|exists r; split; [exact E|lia]].
 Qed.
 
-Lemma log_base2_total : forall x, 0 < x -> bitlen x <= 1144 -> exists r, log_base2 x = Ok r.
+Lemma log_base2_total_bound : forall x, 0 < x -> bitlen x <= 1144 -> exists r, log_base2 x = Ok r /\ Z.abs r <= 2300 * P36.
 Proof.
   intros x Hx Hbits. pose proof P36_pos as HP. pose proof P36_lt120 as H120.
   assert (HPP : 2000 * P36 <= 2 ^ 200) by (vm_compute; discriminate).
@@ -131,7 +131,50 @@ Proof.
       + destruct (bdc_add y (- P36)) as [y'|]; cbn [bind] in E; [|discriminate].
         rewrite Z.shiftl_mul_pow2 in E by lia. change (2 ^ 1) with 2 in E. apply (IH _ _ _ _ E). lia.
       + inversion E; subst; assumption. }
-  apply log2_iter_total; [split; [apply C2; assumption|assumption]| |].
+  assert (Hit : Z.of_nat max_log2_iterations <= 1000) by (vm_compute; discriminate).
+  destruct (log2_iter_total max_log2_iterations x2 y2 (5 * 10 ^ 35)) as (r & E & A).
+  - split; [apply C2; assumption|assumption].
   - split; [vm_compute; discriminate|vm_compute; discriminate].
-  - rewrite Hfuel in A2. assert (Z.of_nat max_log2_iterations <= 1000) by (vm_compute; discriminate). nia.
+  - rewrite Hfuel in A2. nia.
+  - exists r. split; [exact E|]. rewrite Hfuel in A2. nia.
+Qed.
+
+Lemma log_base2_total : forall x, 0 < x -> bitlen x <= 1144 -> exists r, log_base2 x = Ok r.
+Proof. intros x H1 H2. destruct (log_base2_total_bound x H1 H2) as (r & E & _). exists r. exact E. Qed.
+
+(* the quotient by a non-zero divisor of at least 10^-36 * 10^30 in magnitude... any non-zero raw divisor: fits *)
+Lemma bdc_quo_total : forall l c, Z.abs l <= 2300 * P36 -> c <> 0 -> exists r, bdc_quo l c = Ok r.
+Proof.
+  intros l c Hl Hc. pose proof P36_pos as HP. unfold bdc_quo. destruct (Z.eqb_spec c 0); [contradiction|].
+  assert (Hq : Z.abs (bd_quo l c) <= 2 ^ 1000).
+  { unfold bd_quo. pose proof (chop_round_P36_err (Z.quot (l * P72) c)) as C.
+    assert (Hquot : Z.abs (Z.quot (l * P72) c) <= Z.abs l * P72).
+    { rewrite <- Z.quot_abs by assumption. rewrite Z.abs_mul, (Z.abs_eq P72) by (vm_compute; discriminate).
+      assert (0 <= Z.abs l * P72) by (apply Z.mul_nonneg_nonneg; [lia|vm_compute; discriminate]).
+      apply Z.quot_le_upper_bound; [lia|]. nia. }
+    assert (H72 : 2300 * P36 * P72 + P36 <= 2 ^ 1000) by (vm_compute; discriminate).
+    assert (Z.abs l * P72 <= 2300 * P36 * P72) by (apply Z.mul_le_mono_nonneg_r; [vm_compute; discriminate|assumption]). nia. }
+  rewrite bd_check_small by assumption. eexists; reflexivity.
+Qed.
+
+Lemma ln_total : forall x, 0 < x -> bitlen x <= 1144 -> exists r, ln_bigdec x = Ok r.
+Proof.
+  intros x H1 H2. destruct (log_base2_total_bound x H1 H2) as (l & E & B). unfold ln_bigdec. rewrite E. cbn [bind].
+  apply bdc_quo_total; [assumption|vm_compute; discriminate].
+Qed.
+Lemma tick_log_total : forall x, 0 < x -> bitlen x <= 1144 -> exists r, tick_log x = Ok r.
+Proof.
+  intros x H1 H2. destruct (log_base2_total_bound x H1 H2) as (l & E & B). unfold tick_log. rewrite E. cbn [bind].
+  apply bdc_quo_total; [assumption|vm_compute; discriminate].
+Qed.
+(* CustomBaseLog: returns, unless the computed log2(base) is exactly 0 (base within 2^-119 of 1) - then the division panics *)
+Lemma custom_base_log_total : forall x base, 0 < x -> bitlen x <= 1144 -> 0 < base -> base <> P36 -> bitlen base <= 1144 ->
+  exists r, custom_base_log x base = Ok r \/ (custom_base_log x base = Err EDivZero /\ log_base2 base = Ok 0).
+Proof.
+  intros x base H1 H2 H3 H4 H5. unfold custom_base_log.
+  destruct (Z.leb_spec base 0); [lia|]. destruct (Z.eqb_spec base P36); [contradiction|]. cbn [orb].
+  destruct (log_base2_total_bound x H1 H2) as (lx & Ex & Bx). destruct (log_base2_total_bound base H3 H5) as (lb & Eb & Bb).
+  rewrite Ex, Eb. cbn [bind]. destruct (Z.eq_dec lb 0) as [->|Hnz].
+  - exists 0. right. split; reflexivity.
+  - destruct (bdc_quo_total lx lb Bx Hnz) as (r & E). exists r. left. exact E.
 Qed.
